@@ -306,6 +306,25 @@ def run(ctx):
                     ctx.oracle_fail(f"write_chunk raised {type(exc).__name__}: {exc}",
                                     {"info": info, "accessor": kind, "options": opts, "key": key, "coords": list(b),
                                      "array": how})
+                    continue
+                # read back through the SAME handle in the middle of the history (read - overwrite - read sequences on one
+                # position arise because positions repeat): the latest write must be seen at once
+                if kind != "sharded" and rng.random() < 0.5:
+                    d = {"info": info, "accessor": kind, "options": opts, "reader": "same handle, mid-history",
+                         "key": key, "coords": list(b), "writes_so_far": len(ops)}
+                    try:
+                        got = io.read_chunk(key, b)
+                    except Exception as exc:  # noqa
+                        ctx.oracle_fail(f"read_chunk right after write_chunk raised {type(exc).__name__}: {exc}", d)
+                        continue
+                    ctx.bump("mid_history_reads")
+                    if enc == "jpeg":
+                        if got.shape != a.shape or int(np.max(np.abs(got.astype(int) - a.astype(int)))) > 40:
+                            ctx.oracle_fail("JPEG chunk read right after it was written is not the chunk written", d)
+                    elif got.shape != a.shape or not np.array_equal(got.view(np.uint8) if dt == "float32" else got,
+                                                                    a.view(np.uint8) if dt == "float32" else a):
+                        ctx.oracle_fail("a chunk read right after it was (over)written is not the latest chunk written",
+                                        dict(d, written=a.ravel().tolist()[:20], got=got.ravel().tolist()[:20]))
             if kind == "sharded":
                 try:
                     acc.close()
